@@ -145,7 +145,7 @@ Snapshot(mm, v) ==
 
 \* writing through store s could be observed through (or clobber) a store that may share with it
 Hazard(mm, s, asSource) ==
-  LET ps == IF asSource THEN {p[2] : p \in {q \in mm.h.pairs : q[1] = s}} ELSE Partners(mm.h, s)
+  LET ps == IF asSource THEN Results(mm.h, s) ELSE Partners(mm.h, s)
   IN ps # {} /\ (ps \cap LiveSids(mm)) # {}
 
 \* ---------------------------------------------------------------- builtins
